@@ -519,7 +519,9 @@ Definition m_recv (A : agent) (S : shared) : option out :=
       | CTryRecv | CTryView => ok (callsub R1pre TRfin A) S []
       | _ => ok (at_pc RVloop A) S []
       end
-  | R1pre => ok (at_pc (if a_multi A then R1 else R2) A) S []
+  | R1pre =>
+      (* try_recv reads "am I the only consumer" before it loads the position; the view path has no such read *)
+      ok (at_pc (if is_view_call A then (if a_multi A then R1 else R2) else R3) A) S []
   | R1 =>
       let '(v, S1, e) := cons_load S in
       if v =? 1 then ok (at_pc R2 (set_a_multi false A)) S1 e else ok (at_pc R2 A) S1 e
@@ -529,7 +531,14 @@ Definition m_recv (A : agent) (S : shared) : option out :=
       ok (at_pc (if is_view_call A then V1 else R3) (withr R1 A)) S1 e
   | R3 =>
       let '(v, S1, e) := cons_load S in
-      ok (at_pc R4 (withr (set_r_single (v =? 1) R) A)) S1 e
+      ok (at_pc (if a_multi A then R1n else R2n) (withr (set_r_single (v =? 1) R) A)) S1 e
+  | R1n =>
+      let '(v, S1, e) := cons_load S in
+      if v =? 1 then ok (at_pc R2n (set_a_multi false A)) S1 e else ok (at_pc R2n A) S1 e
+  | R2n =>
+      let '(v, S1, e) := pos_load S in
+      let R1 := set_r_am (negb (a_multi A)) (set_r_p v R) in
+      ok (at_pc R4 (withr R1 A)) S1 e
   | R4 =>
       let t := gtag S slot in
       let e := [EOp KLoad (LTag slot) 0 0 t true] in
